@@ -18,7 +18,7 @@ try:
         if flt and flt not in name:
             continue
         d = json.load(open(p))
-        sh("git -C %s checkout -q -- . && git -C %s clean -fdq" % (wt, wt))
+        sh("git -C %s reset -q --hard HEAD && git -C %s clean -fdq" % (wt, wt))   # apply --3way stages its result: checkout alone would keep it
         r = sh("git -C %s apply --3way %s/patch.diff" % (wt, os.path.dirname(p)))
         if r.returncode:
             # a later fix: commit touched the same lines; the kept patch is relative to meta["base_commit"]
